@@ -23,7 +23,9 @@ GRIDS = {
     'disjoint': list(range(800, 1101, 100)),
     'nonuniform': [400, 410, 450, 520, 700],
 }
-PAIRS = [('intA', 'nested'), ('intA', 'intnested'), ('A', 'same'), ('A', 'nested'), ('A', 'partial'), ('A', 'disjoint'), ('A', 'nonuniform'), ('nonuniform', 'nested'),
+GRIDS['Axum'] = [g * 1000 for g in GRIDS['A']]      # in um these are the same numbers as 'A' in nm: equal arrays, different spectra
+GRIDS['shifted'] = [420, 520, 620, 720]              # union span / step is not an integer
+PAIRS = [('A', 'shifted'), ('intA', 'nested'), ('intA', 'intnested'), ('A', 'same'), ('A', 'nested'), ('A', 'partial'), ('A', 'disjoint'), ('A', 'nonuniform'), ('nonuniform', 'nested'),
          ('nested', 'A'), ('partial', 'nonuniform')]
 
 
@@ -247,6 +249,60 @@ def chk_unit_invariance(case, acc, seed):
     acc.case(case, outcome='unit-inv')
 
 
+def chk_same_numbers(case, acc, seed):
+    """operands whose wavelength arrays hold the same numbers in different units are different spectra"""
+    opn, sampling = case['op'], case['sampling']
+    a, b = make('A', 'nm', seed), make('Axum', 'um', seed)
+    if not np.array_equal(a.wave, b.wave):
+        acc.errors.append('catalogue: A[nm] and Axum[um] should hold equal numbers')
+    try:
+        res = guarded(lambda: getattr(a, opn)(b, sampling=sampling, fill_value=case['fill']))
+    except Exception as e:
+        acc.violation(f'binary:same-numbers:raises:{type(e).__name__}', case, repr(e))
+        return
+    wr, vr = phys(res)
+    g1, g2 = np.array(GRIDS['A'], float), np.array(GRIDS['Axum'], float)
+    d = {'min': 50.0, 'left': 50.0, 'right': 50000.0}[sampling]
+    step = np.diff(wr)
+    if not (abs(wr[0] - g1[0]) <= 1e-6 and abs(wr[-1] - g2[-1]) <= 1e-3 and len(wr) >= 3 and np.allclose(step, step[0], rtol=1e-6)
+            and step[0] <= d * (1 + 1e-9) and len(wr) - 1 in (int(np.ceil((g2[-1] - g1[0]) / d - 1e-9)), int(np.ceil((g2[-1] - g1[0]) / d - 1e-9)) + 1)):
+        acc.violation('binary:same-numbers:grid', case,
+                      f'operands with equal numbers in nm and um: result grid {wr[0]:.6g}..{wr[-1]:.6g} nm ({len(wr)} points) is not the union {g1[0]}..{g2[-1]} nm')
+    else:
+        f = NPOPS[opn]
+        idx = list(range(0, len(wr), max(1, len(wr) // 400))) + [len(wr) - 1]
+        for k in idx:
+            c1, c2 = lin('A', seed, wr[k], case['fill'], False), lin('Axum', seed, wr[k], case['fill'], False)
+            if not any(np.isclose(vr[k], f(np.float64(x1), np.float64(x2)), rtol=1e-8, atol=1e-12, equal_nan=True) for x1 in c1 for x2 in c2):
+                acc.violation('binary:same-numbers:value', case, f'at {wr[k]:.6g} nm the result is {vr[k]!r}')
+                break
+    acc.cls('same-numbers')
+    acc.case(case, outcome='same-numbers')
+
+
+def chk_value_history(case, acc, seed):
+    """a result depends on the operands' current values: op, then `a.value = ...`, then op again"""
+    n1, n2 = case['pair']
+    opn, method = case['op'], case['method']
+    a, b = make(n1, 'nm', seed), make(n2, 'nm', seed)
+    getattr(a, opn)(b, method=method)
+    a.sample(np.array([450.0, 475.0]), method=method)
+    new = np.array(a.value, dtype=float)[::-1].copy() + 0.25
+    a.value = new
+    r1 = getattr(a, opn)(b, method=method)
+    from lentil.radiometry import Spectrum
+    fresh = Spectrum(np.array(a.wave, copy=True), new.copy(), waveunit='nm')
+    r2 = getattr(fresh, opn)(make(n2, 'nm', seed), method=method)
+    if not same_phys(phys(r1), phys(r2), tol=1e-10):
+        acc.violation(f'binary:stale-after-value-update:{method}', case, 'after `a.value = ...` the operation still uses the old values')
+    s1 = a.sample(np.array([450.0, 475.0]), method=method)
+    s2 = fresh.sample(np.array([450.0, 475.0]), method=method)
+    if not np.allclose(s1, s2, rtol=1e-12):
+        acc.violation(f'sample:stale-after-value-update:{method}', case, f'{s1} != {s2}')
+    acc.cls('value-history')
+    acc.case(case, outcome='value-history')
+
+
 def chk_scalar(case, acc, seed):
     name, unit, opn, kind = case['name'], case['unit'], case['op'], case['other']
     a = make(name, unit, seed)
@@ -292,12 +348,12 @@ def chk_badtype(case, acc, seed):
     acc.case(case, outcome='badtype')
 
 
-DISPATCH = {'binary': chk_binary, 'commute': chk_commute, 'unitinv': chk_unit_invariance, 'scalar': chk_scalar, 'badtype': chk_badtype}
+DISPATCH = {'samenum': chk_same_numbers, 'valhist': chk_value_history, 'binary': chk_binary, 'commute': chk_commute, 'unitinv': chk_unit_invariance, 'scalar': chk_scalar, 'badtype': chk_badtype}
 
 
 def t_pair(arg, acc):
     tier, seed, pair, opn = arg['tier'], arg['seed'], arg['pair'], arg['op']
-    for sampling in ('min', 'left', 'right', 25.0):
+    for sampling in ('min', 'left', 'right', 25.0, 70.0):
         for method in ('linear', 'quadratic', 'cubic'):
             for fill in (0, 1, 0.5):
                 acc.states += 1
@@ -331,10 +387,18 @@ def t_scalar(arg, acc):
                     acc.transitions += 1
                     chk_scalar({'kind': 'scalar', 'name': name, 'unit': unit, 'op': opn, 'other': kind}, acc, arg['seed'])
     chk_badtype({'kind': 'badtype'}, acc, arg['seed'])
+    for opn in ('add', 'multiply', 'subtract'):
+        for sampling in ('min', 'left', 'right'):
+            for fill in (0, 1):
+                chk_same_numbers({'kind': 'samenum', 'op': opn, 'sampling': sampling, 'fill': fill}, acc, arg['seed'])
+    for pair in (('A', 'same'), ('A', 'nested'), ('nonuniform', 'nested')):
+        for opn in OPS:
+            for method in ('linear', 'quadratic', 'cubic'):
+                chk_value_history({'kind': 'valhist', 'pair': list(pair), 'op': opn, 'method': method}, acc, arg['seed'])
 
 
 def run(tier, seed, acc, procs=None):
-    pairs = PAIRS if tier != 'quick' else PAIRS[:8]
+    pairs = PAIRS if tier != 'quick' else PAIRS[:9]
     tasks = [('t_pair', {'tier': tier, 'seed': seed, 'pair': list(p), 'op': o}) for p in pairs for o in OPS]
     tasks.append(('t_scalar', {'seed': seed}))
     acc.states += 1
@@ -348,7 +412,7 @@ def run(tier, seed, acc, procs=None):
         'assumptions': ['reference: piecewise-linear interpolation inside an operand range, fill outside, operator applied point by point',
                         'spline methods are judged at grid points that coincide with operand samples',
                         'grid points that coincide with a range end only up to rounding are not judged; one extra grid interval is tolerated'],
-        'require': {'mixed-units': 1000, 'same-unit': 500, 'nm-only': 100, 'scalar': 100, 'commute': 50},
+        'require': {'same-numbers': 10, 'value-history': 30, 'mixed-units': 1000, 'same-unit': 500, 'nm-only': 100, 'scalar': 100, 'commute': 50},
     }
 
 
